@@ -84,7 +84,12 @@ func (f *FieldCopyToGenerator) errAttrConversionFailure(path string, typ string)
 func (f *FieldCopyToGenerator) Generate() *j.Statement {
 	// (a oneof branch reads the oneof holder through the embedded parent as well)
 	if f.ParentIsOptionalEmbed && (f.Kind != PrimitiveKind || f.OneOfName != "") {
-		return j.Block(f.genOptionalEmbedStub(), f.generate())
+		// (one block per embedded parent, outermost first: each shadows obj for the next)
+		s := f.generate()
+		for i := len(f.OptionalEmbedParents) - 1; i >= 0; i-- {
+			s = j.Block(f.genOptionalEmbedStub(f.OptionalEmbedParents[i]), s)
+		}
+		return s
 	}
 
 	return f.generate()
@@ -93,15 +98,14 @@ func (f *FieldCopyToGenerator) Generate() *j.Statement {
 // genOptionalEmbedStub shadows obj with the embedded parent itself, or with an empty one when the
 // parent is nil, so that the fragment below reads zero values instead of dereferencing nil
 // (obj may be a pointer or, for elements and messages held by value, a struct: both have the parent)
-func (f *FieldCopyToGenerator) genOptionalEmbedStub() *j.Statement {
+func (f *FieldCopyToGenerator) genOptionalEmbedStub(p OptionalEmbedParent) *j.Statement {
 	// obj := obj.Embedded
 	// if obj == nil {
 	//     obj = &Embedded{}
 	// }
-	parent := f.ParentIsOptionalEmbedFieldName
-	return j.Id("obj").Op(":=").Id("obj." + parent).Line().
+	return j.Id("obj").Op(":=").Id("obj." + p.FieldName).Line().
 		If(j.Id("obj").Op("==").Nil()).Block(
-		j.Id("obj").Op("=").Id("&" + f.ParentIsOptionalEmbedFullType + "{}"),
+		j.Id("obj").Op("=").Id("&" + p.FullType + "{}"),
 	)
 }
 
@@ -169,7 +173,7 @@ func (f *FieldCopyToGenerator) genZeroValue(fieldName string) func(*j.Group) {
 		// v.Null = v.Value == ""
 		if f.ZeroValue != "" && f.ParentIsOptionalEmbed && f.OneOfName == "" && f.Kind == PrimitiveKind {
 			// The field can only be read when the embedded parent is not nil (it is rendered as null otherwise)
-			g.If(j.Id("obj." + f.ParentIsOptionalEmbedFieldName).Op("!=").Nil()).Block(
+			g.If(f.embedParentsExist()).Block(
 				j.Id("v.Null").Op("=").Id(f.i.WithType(f.ValueCastToType)).Parens(j.Id(fieldName)).Op("==").Id(f.ZeroValue),
 			)
 		} else if f.ZeroValue != "" {
@@ -192,7 +196,7 @@ func (f *FieldCopyToGenerator) genPrimitiveBody(fieldName string, g *j.Group) {
 	if !f.IsPlaceholder {
 		// (elements of a list or map are only reached through an existing parent)
 		if f.ParentIsOptionalEmbed && f.OneOfName == "" && f.Kind == PrimitiveKind {
-			g.If(j.Id("obj." + f.ParentIsOptionalEmbedFieldName).Op("==").Nil()).Block(
+			g.If(f.embedParentsMissing()).Block(
 				j.Id("v.Null").Op("=").True(),
 			).Else().Block(f.genAssignValue(fieldName))
 		} else {
